@@ -351,6 +351,8 @@ def run(ctx):
         ctx.case(("rnd", variant, sig, json.dumps(r["docs"])), len(r["docs"]) > (1 if variant == "concat" else 0))
     nbad = judge_trace(ctx, tres, rec, rmeta, "trace")
     ctx.traces(len(rec) - nbad)
+    for f in glob.glob(str(ctx.out / "cases_*")):       # the dumps are large in the thorough tier
+        os.remove(f)
     ctx.assumptions += [
         "stream datums have non-empty ranges and seq_nums advance in step with indices (seq = index + constant) within one stream "
         "resource, as the RunEngine emits them; datum sets whose seq_nums have gaps while indices are contiguous are outside the domain",
